@@ -37,6 +37,13 @@ func zzStub_time_After(d time.Duration) <-chan time.Time {
 	return ch
 }
 
+// time.NewTimer (with Stop / Reset) is the same environment as time.After.
+func zzStub_time_NewTimer(d time.Duration) *time.Timer {
+	return &time.Timer{C: zzStub_time_After(d)}
+}
+
+func zzStub_time_Timer_Stop(t *time.Timer) bool { return true }
+
 // error classes (DESIGN A.5)
 const (
 	zzENone = iota
